@@ -159,12 +159,15 @@ func (ot OctTree) ClosestPoint(v vector3.Float64) (int, vector3.Float64) {
 					cell: child,
 				})
 			}
-			for _, element := range item.cell.elements {
+			for i := range item.cell.elements {
+				// take the address of the slice entry, not of a loop
+				// variable that is shared by every iteration
+				element := &item.cell.elements[i]
 				point := element.primitive.ClosestPoint(v)
 
 				heap.Push(&pq, octDistItem{
 					dist:    point.DistanceSquared(v),
-					element: &element,
+					element: element,
 					point:   point,
 				})
 			}
